@@ -121,21 +121,35 @@ pub fn gen_samples(rng: &mut Rng, n: usize, k: usize, o: &GenomeOpts, prefix: &s
         p.extend(revcomp(&x));
         anc[at..at + k].copy_from_slice(&p);
     }
+    // repeats: copy a window elsewhere and change its middle base: same split k-mer, two middle
+    // bases -> an ambiguity code. Some copies are planted per sample (below), so that a row holds a
+    // mix of plain bases and ambiguity codes across samples.
+    let mut sample_repeats: Vec<(usize, Vec<u8>)> = vec![];
     if o.repeats && o.len > 3 * k + 6 {
-        // copy a window elsewhere and change its middle base: same split k-mer, two middle bases
-        let from = rng.range(0, o.len - k - 1);
-        let w: Vec<u8> = anc[from..from + k].to_vec();
-        let to = rng.range(0, o.len - k - 1);
-        if to + k <= from || from + k <= to {
-            let mut w2 = w.clone();
-            w2[half] = other_base(rng, w[half]);
-            anc[to..to + k].copy_from_slice(&w2);
+        for r in 0..rng.range(1, 4) {
+            let from = rng.range(0, o.len - k - 1);
+            let w: Vec<u8> = anc[from..from + k].to_vec();
+            let to = rng.range(0, o.len - k - 1);
+            if to + k <= from || from + k <= to {
+                let mut w2 = w.clone();
+                w2[half] = other_base(rng, w[half]);
+                if r == 0 {
+                    anc[to..to + k].copy_from_slice(&w2);
+                } else {
+                    sample_repeats.push((to, w2));
+                }
+            }
         }
     }
     let sites: Vec<usize> = (0..o.snp_sites).map(|_| rng.below(o.len)).collect();
     let mut out = vec![];
     for i in 0..n {
         let mut s = anc.clone();
+        for (to, w2) in &sample_repeats {
+            if rng.chance(50) {
+                s[*to..*to + k].copy_from_slice(w2);
+            }
+        }
         for &p in &sites {
             if rng.chance(45) {
                 // few alleles per site so that columns are shared between samples
